@@ -318,8 +318,9 @@ class Check:
         ev = {'property_id': self.prop, 'tier': self.tier if self.tier in ('quick', 'thorough') else 'quick',
               'seed': self.seed, 'level': self.level, 'coverage': cov, 'assumptions': self.assumptions,
               'wall_s': round(time.time() - self.t0, 2), 'violations': len(self.violations)}
-        os.makedirs(os.path.join(VERIF, 'evidence'), exist_ok=True)
-        with open(os.path.join(VERIF, 'evidence', self.prop + '.json'), 'w') as f:
+        evdir = os.environ.get('PGV_EVIDENCE_DIR') or os.path.join(VERIF, 'evidence')   # bin/seeded redirects it
+        os.makedirs(evdir, exist_ok=True)
+        with open(os.path.join(evdir, self.prop + '.json'), 'w') as f:
             json.dump(ev, f, indent=1, default=str)
         for k in self.known:
             if k['key'] in self.known_hits:
